@@ -58,6 +58,25 @@ def parseDelivered (s : String) : Option (List (Nat × Nat × Nat)) :=
     | [c, r, l] => do pure ((← c.toNat?), (← r.toNat?), (← l.toNat?))
     | _ => none
 
+def parseTagged (s : String) : Option (List (Nat × Nat)) :=
+  if s = "-" then some [] else
+  (s.splitOn ",").mapM fun t =>
+    match t.splitOn "." with
+    | [p, i] => do pure ((← p.toNat?), (← i.toNat?))
+    | _ => none
+
+/-- first thing wrong with a concurrent run, for the report -/
+def concWhy (p k : Nat) (got : List (Nat × Nat)) : String :=
+  let dup := got.find? fun x => (got.filter (· == x)).length > 1
+  let missing := ((List.range p).flatMap fun i => (List.range k).map fun j => (i + 1, j)).find? fun x => !got.contains x
+  let disorder := (List.range p).find? fun i =>
+    let mine := (got.filter (fun x => x.1 == i + 1)).map (·.2)
+    !(mine.zip mine.tail).all fun (a, b) => a < b
+  s!"{p} producers x {k} tasks: {got.length} handed out" ++
+    (match dup with | some x => s!"; task {x.1}.{x.2} handed out more than once" | none => "") ++
+    (match missing with | some x => s!"; task {x.1}.{x.2} never handed out" | none => "") ++
+    (match disorder with | some i => s!"; tasks of producer {i + 1} out of order" | none => "")
+
 def showBatch (b : List QJob) : String :=
   ";".intercalate (b.map fun j => s!"{j.cmd}:{j.req}:{j.bodyLen}")
 
@@ -120,6 +139,24 @@ def step (s : St) (l : Line) : St × Verdict :=
       else if bef ≠ "before=1" then (s, .specFail "C04.chunks" s!"size={sz}: the command using the file is queued before its chunks")
       else if lens ≠ wantS then (s, .diff wantS) else (s, .ok)
     | _, _, _ => (s, .bad "chunks args")
+  | "conc", [_id, np, each] =>
+    -- real goroutines: `np` producers queue `each` tasks tagged <producer>.<seq> while the listener side checks in
+    -- until everything is out.  Spec (C04.fifo_all_schedules): whatever the schedule, every task is handed out
+    -- exactly once and every producer's tasks come out in the order that producer queued them; every queued task
+    -- has its request id on record (C05's gate relies on it).
+    match np.toNat?, each.toNat?, l.impl with
+    | some p, some k, [tasks, ds] =>
+      match parseTagged ds with
+      | none => (s, .bad "conc: delivered list")
+      | some got =>
+        let perProducerOk := (List.range p).all fun i =>
+          (got.filter (fun x => x.1 == i + 1)).map (·.2) == List.range k
+        if got.length ≠ p * k || !perProducerOk then
+          (s, .specFail "C04.concurrent" (concWhy p k got))
+        else if tasks ≠ s!"tasks={p * k}" then
+          (s, .specFail "C04.concurrent" s!"{p * k} tasks were queued concurrently but the request-id record holds {tasks}")
+        else (s, .ok)
+    | _, _, imp => (s, .specFail "C04.concurrent" s!"concurrent producers and check-ins ended with {(joinSp imp).take 160}")
   | op, _ => (s, .bad s!"unknown op {op}")
 
 end Havoc.DriverC04
